@@ -37,6 +37,7 @@ def _run(ctx, chk):
     Q = QueueAnalysis(ctx)
     LR.rule_owned_operands(ctx, chk, L, "K1")
     LR.rule_rmw_only(ctx, chk, L, "K2")
+    LR.rule_inplace_same_id(ctx, chk, L, "K4")
     LR.rule_unanalysed_writers(ctx, chk, L, "K2")
     LR.rule_balance_conc(ctx, chk, L, "K3")
     Q.rule_pop(chk, "K4", "K4", "K4")
